@@ -498,6 +498,15 @@ Ops == {"rp_create", "rp_update", "rp_delete", "rp_get",
         "rc_list", "rc_get", "rc_post", "rc_put", "rc_del",
         "alloc_put", "alloc_post", "alloc_get", "alloc_del", "reshape", "usages", "root", "sync"}
 
+\* A request may spell the uuid of a parent provider in another form the uuid format admits
+\* (upper case, without dashes, in braces): field pspell.  Whether such a spelling names the
+\* provider or names nothing is not fixed by the documented meaning, so both readings are
+\* allowed - but under either one the answer and the state are those of Apply.
+NOPROVIDER == "~nobody"
+Readings(r) ==
+  IF "pspell" \in DOMAIN r /\ r.op \in {"rp_create", "rp_update"} /\ r.parent \notin {"", "null"}
+  THEN {r, [r EXCEPT !.parent = NOPROVIDER]} ELSE {r}
+
 Apply(s, r) ==
   CASE r.op = "rp_create" -> RpCreate(s, r)
     [] r.op = "rp_update" -> RpUpdate(s, r)
